@@ -14,7 +14,7 @@ Blame ==
   @@ "ha.msg"     :> {"C11"}
   @@ "ha.timeout" :> {"C11"}
   @@ "ha.dead"    :> {"C11"}
-  @@ "eff.notimeout" :> {"C11"}
+  @@ "blk.loop.handling" :> {"C11", "C02"}
   @@ "eff.ctx"    :> {"C15"}
   @@ "cb.sb"      :> {"C03"}
   @@ "cb.se"      :> {"C03"}
